@@ -673,7 +673,12 @@ class SimNet:
         for tr in conn.ends:
             if tr is None or tr._conn_lost:
                 continue
-            if kind == "rst" or unsent[tr.side] or tr._protocol_paused:
+            if kind == "timeout":
+                # the peer (or the path to it) went silent: the kernel gives up after its retransmissions / keep-alive
+                # probes and reports ETIMEDOUT - an OSError that is neither a reset nor an EOF
+                if tr.rx_err is None:
+                    tr.rx_err = TimeoutError(110, "Connection timed out")
+            elif kind == "rst" or unsent[tr.side] or tr._protocol_paused:
                 # an end that still had bytes to send (or is paused in drain()) learns of the loss through
                 # a reset when its kernel retransmits into the dead connection - a bare FIN would leave a
                 # paused writer suspended for ever, which no real TCP peer does
